@@ -390,6 +390,33 @@ pub fn open_loop(run: &mut Run, cfg: &SCfg, t0: u64, iters: usize, clears: bool,
     };
     let cc = tracer.verif_channel_config(cfg.src);
     let sc = tracer.verif_strategy_config();
+    // C16: every value given to the builder reaches the layer that uses it, unchanged and under its own name
+    {
+        let ns = |d: Duration| d.as_nanos() as u64;
+        let mut lost: Vec<String> = vec![];
+        let mut chk = |name: &str, got: String, want: String| if got != want { lost.push(format!("{name}: {got} instead of {want}")); };
+        chk("grace_duration", ns(sc.grace_duration).to_string(), cfg.grace.to_string());
+        chk("min_round_duration", ns(sc.min_round_duration).to_string(), cfg.min_round.to_string());
+        chk("max_round_duration", ns(sc.max_round_duration).to_string(), cfg.max_round.to_string());
+        chk("first_ttl", sc.first_ttl.0.to_string(), cfg.first.to_string());
+        chk("max_ttl", sc.max_ttl.0.to_string(), cfg.max.to_string());
+        chk("max_inflight", sc.max_inflight.0.to_string(), cfg.inflight.to_string());
+        chk("initial_sequence (strategy)", sc.initial_sequence.0.to_string(), cfg.initial.to_string());
+        chk("initial_sequence (channel)", cc.initial_sequence.0.to_string(), cfg.initial.to_string());
+        chk("trace_identifier", sc.trace_identifier.0.to_string(), cfg.trace_id.to_string());
+        chk("max_rounds", format!("{:?}", sc.max_rounds.map(|m| m.0.get())), format!("{:?}", cfg.max_rounds));
+        chk("packet_size", cc.packet_size.0.to_string(), cfg.size.to_string());
+        chk("payload_pattern", cc.payload_pattern.0.to_string(), cfg.pattern.to_string());
+        chk("tos", cc.tos.0.to_string(), cfg.tos.to_string());
+        chk("read_timeout", ns(cc.read_timeout).to_string(), cfg.read_timeout.to_string());
+        chk("tcp_connect_timeout", ns(cc.tcp_connect_timeout).to_string(), cfg.tcp_timeout.to_string());
+        chk("target_addr", format!("{} / {}", cc.target_addr, sc.target_addr), format!("{} / {}", cfg.dst, cfg.dst));
+        chk("source_addr", cc.source_addr.to_string(), cfg.src.to_string());
+        if !lost.is_empty() {
+            run.fail("c16-stack-option-lost", format!("{ctx}: the tracer runs with {}", lost.join("; ")));
+        }
+        run.count("c16:stack-config-checked");
+    }
     let chan = guarded(|| Channel::<SimSocket>::connect(&cc));
     let ops = simsock::take_ops();
     let chan = match chan {
@@ -489,6 +516,11 @@ pub fn open_loop(run: &mut Run, cfg: &SCfg, t0: u64, iters: usize, clears: bool,
                     }
                 }
             }
+        }
+        // C09: an error the channel reports as fatal (neither a failed probe nor an address in use) ends the run
+        if spy.sends.iter().any(|(_, oc, _)| *oc == 'x') && matches!(r, Ok(Ok(()))) {
+            run.fail("c09-stack-fatal-swallowed", format!("{ctx} … {req}: send_probe returned a fatal error for [{}], send_request carried on",
+                spy.sends.iter().filter(|(_, oc, _)| *oc == 'x').map(|(p, _, _)| format!("seq {} ttl {}", p.sequence.0, p.ttl.0)).collect::<Vec<_>>().join(", ")));
         }
         // C06: never after the target has answered in this round
         if truth.target_answered && !spy.sends.is_empty() {
@@ -601,6 +633,11 @@ pub fn open_loop(run: &mut Run, cfg: &SCfg, t0: u64, iters: usize, clears: bool,
                 break;
             }
             Ok(Ok(())) => {}
+        }
+        // C09: a failing readiness poll of the receive socket is a fatal socket error (unless the socket of a TCP probe
+        // answered first and the receive socket was never polled)
+        if pl.readable == Poll::Fails && !(cfg.proto == 't' && pl.env.iter().any(SockEnv::writable)) && failed.is_none() && alive {
+            run.fail("c09-stack-fatal-swallowed", format!("{ctx} … {req}: the readiness poll of the receive socket failed, recv_response carried on"));
         }
         // C02 through the whole stack: a genuine quotation that the receive socket really delivered (readable, nothing
         // else competing for this call) is recognised by the channel as a response from its sender
@@ -1307,6 +1344,27 @@ pub fn run(rng: &mut Rng, thorough: bool, _corpus: &[String]) -> Run {
         if cfg.build().is_ok() {
             run.count("directed:dublin-v6-long-run");
             closed_loop(&mut run, &cfg, rng.below(1000) * 1000, &[4 * MS], None);
+        }
+    }
+    // the public entry points with the real socket layer: a source address this host does not own cannot be bound, so
+    // the run fails before a probe is sent — with an error value that every later snapshot shows (C09), whichever
+    // entry point started the run
+    for which in ["run", "run_with"] {
+        for (target, source) in [(IpAddr::V4(std::net::Ipv4Addr::new(192, 0, 2, 1)), IpAddr::V4(std::net::Ipv4Addr::new(203, 0, 113, 77))),
+                                 (IpAddr::V6("2001:db8::1".parse().unwrap()), IpAddr::V6("2001:db8:ffff::77".parse().unwrap()))] {
+            let Ok(tracer) = Builder::new(target).source_addr(Some(source)).max_rounds(Some(1)).build() else { continue };
+            let t2 = tracer.clone();
+            let r = guarded(move || if which == "run" { t2.run() } else { t2.run_with(|_| ()) });
+            match r {
+                Err(loc) => run.fail("c09-stack-panic", format!("Tracer::{which} with the unbindable source address {source} ({loc})")),
+                Ok(Ok(())) => run.count("stack:real-socket-run-unexpectedly-ok"),
+                Ok(Err(e)) => {
+                    match tracer.snapshot().error() {
+                        Some(s) if s == e.to_string() => run.count("stack:real-socket-error-recorded"),
+                        other => run.fail("c09-stack-error-invisible", format!("Tracer::{which} (source address {source}, not an address of this host) ended with [{e}] but the snapshot shows {other:?}")),
+                    }
+                }
+            }
         }
     }
     // closed loop under a wall clock that steps backwards (implementation only)
